@@ -49,6 +49,11 @@ def gen_params(rng, idx, tier="quick", force=None):
     }
     if rng.random() < 0.35:
         P["seek"] = {"k": rng.choice([0, 1, 2, 3, 5, 8, 12, 20, 40]), "frac": rng.random()}
+    # "stagger": the lookups of the partitions do not start together - one partition leader is down when the
+    # consumer starts (its partitions wait for a metadata refresh) while OffsetFetch replies are slow
+    P["stagger"] = None
+    if P["group"] and P["n_parts"] >= 2 and rng.random() < 0.3:
+        P["stagger"] = {"leader_down_for": rng.choice([0.05, 0.2, 0.5, 1.0]), "offset_fetch_delay_p": rng.choice([0.5, 0.9])}
     if force:
         P.update(force)
     return P
@@ -115,6 +120,9 @@ def run_history(P):
                             "FindCoordinator": ["drop_before", "delay", ("error", C.COORDINATOR_NOT_AVAILABLE)],
                             "Fetch": ["drop_before", "lose_reply", "delay", ("error", C.NOT_LEADER_FOR_PARTITION)],
                             "Metadata": ["drop_before", "delay"]})
+    if P.get("stagger"):
+        plan.p["OffsetFetch"] = P["stagger"]["offset_fetch_delay_p"]
+        plan.kinds["OffsetFetch"] = ["delay", "delay", "delay", "lose_reply"]
     plan.enabled = False
     cl.faults = plan
     H = {"params": P, "events": [], "errors": [], "committed": {str(k): v for k, v in committed.items()},
@@ -150,6 +158,15 @@ def run_history(P):
             cons.subscribe([TOPIC], listener=L())
         else:
             cons.assign(tps)
+        if P.get("stagger"):
+            coord = cl.coordinator_for(GROUP, 0)
+            cands = sorted({cl.leaders[(TOPIC, p)] for p in range(P["n_parts"])} - {coord})
+            if cands:
+                b = cl.brokers[rng.choice(cands)]
+                b.go_down()
+                net.call_later(P["stagger"]["leader_down_for"], b.come_up)
+                H["staggered_leader"] = b.node_id
+            plan.enabled = True
         try:
             await cons.start()
         except Exception as e:  # noqa: BLE001
